@@ -184,7 +184,16 @@ func (l *forEachProvider) LoadSchema(inputs map[string]any, workflowContext map[
 		return nil, err
 	}
 
-	preparedWorkflow, err := executor.Prepare(wf, workflowContext)
+	// The subworkflow is prepared with a context that no longer contains the file that is being loaded.
+	// A workflow that loops over itself, directly or through other subworkflows, therefore fails with a
+	// "not found in current workflow context" error at the self-reference instead of recursing without bound.
+	nestedContext := make(map[string][]byte, len(workflowContext))
+	for name, contents := range workflowContext {
+		nestedContext[name] = contents
+	}
+	delete(nestedContext, workflowFileName.(string))
+
+	preparedWorkflow, err := executor.Prepare(wf, nestedContext)
 	if err != nil {
 		return nil, err
 	}
